@@ -123,6 +123,11 @@ class Harness:
             for i, x in enumerate(v):
                 if self._p('item', label, i) < 0.6:
                     self.mode[f'{label}#{i}'] = 'async'
+                    if self.p_task and self._p('task', label, i) < self.p_task:
+                        import asyncio
+                        self.mode[f'{label}#{i}'] = 'task'
+                        out.append(asyncio.ensure_future(self._item(x, f'{label}#{i}')))
+                        continue
                     out.append(self._item(x, f'{label}#{i}'))
                 else:
                     out.append(x)
